@@ -115,6 +115,26 @@ func checkC05(c c05Case) (ci caseInfo, err error) {
 			return ci, fmt.Errorf("%d error(s) reported but %d message(s) returned", len(errs), len(msgs))
 		}
 		return ci, nil
+	case "either":
+		// the text contains whitespace the grammar does not list (VT, FF, NBSP, ...) between two tokens of an item:
+		// it may be refused, but if it is accepted the values must be exactly the written ones
+		if len(errs) != 0 {
+			if len(msgs) != 0 {
+				return ci, fmt.Errorf("%d error(s) reported but %d message(s) returned", len(errs), len(msgs))
+			}
+			ci.label("either:rejected")
+			return ci, nil
+		}
+		ci.label("either:accepted")
+		if len(msgs) != len(c.Msgs) {
+			return ci, fmt.Errorf("%d message(s) written, %d returned\ntext:\n%q", len(c.Msgs), len(msgs), clipStr(text, 600))
+		}
+		for i := range msgs {
+			if err := compareParsed(msgs[i], c.Msgs[i], 0); err != nil {
+				return ci, fmt.Errorf("text with unusual whitespace was accepted but message %d does not hold the written values: %v\ntext:\n%q", i+1, err, clipStr(text, 600))
+			}
+		}
+		return ci, nil
 	case "accept":
 		if len(errs) != 0 {
 			return ci, fmt.Errorf("text built from the documented grammar was rejected: %q\ntext:\n%s", errs, clipStr(text, 600))
@@ -290,6 +310,25 @@ func genC05(t *rapid.T) c05Case {
 			c.Class = "reject"
 			c.Bad = &bad
 			labels["bad:"+kind] = true
+		}
+	}
+	if c.Class == "accept" && rapid.IntRange(0, 7).Draw(t, "exoticBlank") == 7 {
+		// one exotic blank right before a value token inside an item
+		mi := rapid.IntRange(0, n-1).Draw(t, "wsMsg")
+		var cand []int
+		for i, tk := range c.Toks[mi] {
+			if i > 0 && (tk.Kind == "num" || tk.Kind == "bool" || tk.Kind == "str" || tk.Kind == "var") && c.Toks[mi][i-1].Kind != "name" {
+				cand = append(cand, i)
+			}
+		}
+		if len(cand) > 0 {
+			i := cand[rapid.IntRange(0, len(cand)-1).Draw(t, "wsAt")]
+			ws := rapid.SampledFrom([]string{"\v", "\f", "\u00a0", "\u0085", "\u2028", "\u3000", "\u2003"}).Draw(t, "ws")
+			nt := append([]model.Tok(nil), c.Toks[mi]...)
+			nt[i] = model.Tok{Text: ws + nt[i].Text, Kind: nt[i].Kind}
+			c.Toks[mi] = nt
+			c.Class = "either"
+			labels["class-either:exotic-blank"] = true
 		}
 	}
 	if rapid.Bool().Draw(t, "freeLayout") {
